@@ -174,15 +174,16 @@ PROPS = {
     'C16': dict(
         level='proof',
         functions=[SEQ + f for f in ('setPhosPhoSites', 'clear_phosphosites', 'get_phosphosites', 'get_phosphosequence', 'kappa_at_maxPhos',
-                                     'calculateNumberDifferentPhosphoStates', 'calculateKappaDistOfPhosphoStates')] +
-                  [SP + f for f in ('set_phosphosites', 'clear_phosphosites', 'get_phosphosites', 'get_phosphosequence')],
+                                     'calculateNumberDifferentPhosphoStates', 'calculateKappaDistOfPhosphoStates', 'get_STY_residues')] +
+                  [SP + f for f in ('set_phosphosites', 'clear_phosphosites', 'get_phosphosites', 'get_phosphosequence', 'get_kappa_after_phosphorylation',
+                                    'get_full_phosphostatus_kappa_distribution', 'get_all_phosphorylatable_sites')],
         lemmas=['rmax_lower'],
         native='c16',
         assumptions=['transition contracts: set_phosphosites keeps the old list as a prefix, adds only requested valid (in range, S/T/Y) positions, adds every valid requested position, never repeats, never raises, '
                      'changes nothing but the list (frame); clear empties it. "After any series of calls" is the fold of these transitions (induction over the history: standard meta-step, not mechanised; checked natively on random series)',
-                     'first-set ORDER among the positions added by one call is not part of the proved postcondition (native check covers it)',
-                     'the distribution is proved for 0, 1 and 2 sites (2^k entries in binary counting order, each entry = the six contracts applied to the sequence with E stored at the sites whose bit is 1); more sites: native check',
-                     'get_all_phosphorylatable_sites and the two get_kappa_after_phosphorylation / get_full_phosphostatus_kappa_distribution forwarders: native check only'],
+                     'first-set order is part of the proved transition contract: an entry standing before another one was requested before the other one\'s first request',
+                     'the distribution is proved for 0, 1, 2 and 3 sites (2^k entries in binary counting order, each entry = the six contracts applied to the sequence with E stored at the sites whose bit is 1); more sites: native check',
+                     'the SequenceParameters forwarders (incl. get_kappa_after_phosphorylation, get_full_phosphostatus_kappa_distribution, get_all_phosphorylatable_sites) are verified against the backend contracts'],
         design_ref='2 / C16',
     ),
     'C15': dict(
